@@ -43,16 +43,16 @@ func trunc(s string, n int) string {
 }
 
 type chunkArrival struct {
-	Order      int // global arrival counter
-	Link       int
-	Seq        uint32
-	Points     []pt
-	Groups     int
-	EmptyGroup bool
-	At         time.Duration // when the broker saw it
-	SentAt     time.Duration // when the client wrote it to the link
-	AfterClose bool
-	DecodeErr  string
+	Order        int // global arrival counter
+	Link         int
+	Seq          uint32
+	Points       []pt
+	Groups       int
+	EmptyGroup   bool
+	At           time.Duration // when the broker saw it
+	SentAt       time.Duration // when the client wrote it to the link
+	AfterClose   bool
+	DecodeErr    string
 	IDsAnnounced []message.DataID
 }
 
@@ -73,21 +73,21 @@ type resumeRec struct {
 }
 
 type bUp struct {
-	Idx       int
-	ID        uuid.UUID
-	Open      *message.UpstreamOpenRequest
-	OpenLink  int
-	QoS       message.QoS
-	aliasOn   map[int]uint32 // link id -> stream id alias
-	dataAlias map[uint32]message.DataID
-	revAlias  map[message.DataID]uint32
-	nextAlias uint32
+	Idx        int
+	ID         uuid.UUID
+	Open       *message.UpstreamOpenRequest
+	OpenLink   int
+	QoS        message.QoS
+	aliasOn    map[int]uint32 // link id -> stream id alias
+	dataAlias  map[uint32]message.DataID
+	revAlias   map[message.DataID]uint32
+	nextAlias  uint32
 	toAnnounce map[uint32]message.DataID
 
-	Arrivals  []*chunkArrival
-	CloseReqs []*closeReq
-	Closed    bool
-	Resumes   []*resumeRec
+	Arrivals    []*chunkArrival
+	CloseReqs   []*closeReq
+	Closed      bool
+	Resumes     []*resumeRec
 	ResultsSent map[uint32][]message.ResultCode
 
 	ConflictLeft int                // answer the next n resumes with RESUME_REQUEST_CONFLICT
@@ -130,25 +130,25 @@ type sentMeta struct {
 }
 
 type bDown struct {
-	OpenLink  int
-	Idx       int
-	ID        uuid.UUID
-	Alias     uint32
-	Open      *message.DownstreamOpenRequest
-	QoS       message.QoS
-	link      *Link
-	upAlias   map[uint32]message.UpstreamInfo // announced by the client (acks received so far)
-	dataAlias map[uint32]message.DataID       // pre-registered + announced
-	Sent      []*sentChunk
-	Acks      []*recvAck
-	Metas     []*sentMeta
-	MetaAcks  []uint32
-	CloseReqs []*closeReq
-	Closed    bool
-	Resumes   []*resumeRec
+	OpenLink     int
+	Idx          int
+	ID           uuid.UUID
+	Alias        uint32
+	Open         *message.DownstreamOpenRequest
+	QoS          message.QoS
+	link         *Link
+	upAlias      map[uint32]message.UpstreamInfo // announced by the client (acks received so far)
+	dataAlias    map[uint32]message.DataID       // pre-registered + announced
+	Sent         []*sentChunk
+	Acks         []*recvAck
+	Metas        []*sentMeta
+	MetaAcks     []uint32
+	CloseReqs    []*closeReq
+	Closed       bool
+	Resumes      []*resumeRec
 	ConflictLeft int
 	RefuseResume message.ResultCode
-	Events    []string // frame order on the wire for this stream: "ack:<id>", "close"
+	Events       []string // frame order on the wire for this stream: "ack:<id>", "close"
 }
 
 type remoteUp struct {
@@ -171,21 +171,21 @@ type bMeta struct {
 }
 
 type bConn struct {
-	Link      *Link
-	Req       *message.ConnectRequest
-	Token     string
-	Connected bool
-	ReqIDs    []uint32 // request ids seen (in order), all request kinds
-	Pings     []pingRec
-	Pongs     []uint32 // pongs received for broker pings
-	Disconnect *message.Disconnect
-	DisconnectAt int // frame index at which Disconnect arrived
-	Frames    []string // type names of every frame received, in order
-	FrameT    []time.Duration
-	nextUpAlias uint32
-	SilentPong bool
-	nextPing  uint32
-	BrokerPings []uint32
+	Link         *Link
+	Req          *message.ConnectRequest
+	Token        string
+	Connected    bool
+	ReqIDs       []uint32 // request ids seen (in order), all request kinds
+	Pings        []pingRec
+	Pongs        []uint32 // pongs received for broker pings
+	Disconnect   *message.Disconnect
+	DisconnectAt int      // frame index at which Disconnect arrived
+	Frames       []string // type names of every frame received, in order
+	FrameT       []time.Duration
+	nextUpAlias  uint32
+	SilentPong   bool
+	nextPing     uint32
+	BrokerPings  []uint32
 }
 
 type pingRec struct {
@@ -205,19 +205,19 @@ type pend struct {
 }
 
 type Broker struct {
-	s    *Sim
-	Cfg  BrokerCfg
-	Conns []*bConn
-	Ups  []*bUp
-	Downs []*bDown
-	Calls []*bCall
-	Metas []*bMeta
-	Remotes []*remoteUp
-	Pend []*pend
-	order int
-	pendID int
-	Tokens []string
-	Unknown []string // frames the broker could not attribute
+	s         *Sim
+	Cfg       BrokerCfg
+	Conns     []*bConn
+	Ups       []*bUp
+	Downs     []*bDown
+	Calls     []*bCall
+	Metas     []*bMeta
+	Remotes   []*remoteUp
+	Pend      []*pend
+	order     int
+	pendID    int
+	Tokens    []string
+	Unknown   []string                  // frames the broker could not attribute
 	DownCalls []*message.DownstreamCall // calls/replies emitted to the client
 	curSentAt time.Duration
 	OnEmit    func(m message.Message) // every non-ack reply the broker emits
@@ -765,7 +765,7 @@ func (b *Broker) EmitMetadata(d *bDown, source, name string, reqID uint32) *sent
 	sm := &sentMeta{Order: b.next(), Link: d.link.ID, ReqID: reqID, Source: source, Name: name}
 	d.Metas = append(d.Metas, sm)
 	d.link.push(&message.DownstreamMetadata{RequestID: message.RequestID(reqID), StreamIDAlias: d.Alias, SourceNodeID: source,
-		Metadata: &message.BaseTime{SessionID: "s", Name: name, Priority: 1, ElapsedTime: time.Second, BaseTime: time.Unix(1_700_000_000, 0).UTC()},
+		Metadata:        &message.BaseTime{SessionID: "s", Name: name, Priority: 1, ElapsedTime: time.Second, BaseTime: time.Unix(1_700_000_000, 0).UTC()},
 		ExtensionFields: &message.DownstreamMetadataExtensionFields{}})
 	return sm
 }
